@@ -337,6 +337,9 @@ const MALFORMED: &[(&str, &str)] = &[
     ("arity-too-few", "{{sin()}}"),
     ("arity-too-many", "{{sin(1, 2)}}"),
     ("arity-randint", "{{randint(1)}}"),
+    ("arity-random", "{{random(5)}}"),
+    ("arity-pow", "{{pow(2)}}"),
+    ("arity-if", "{{if(1, 2)}}"),
     ("undefined-variable", "{{$nope + 1}}"),
     ("circular-variable", "{{$ca}}"),
 ];
